@@ -27,6 +27,7 @@ RENAME = {
     '@__cxa_guard_acquire': '@vll_guard_acquire',
     '@__cxa_guard_release': '@vll_guard_release',
     '@__cxa_pure_virtual': '@vll_pure_virtual',
+    '@llvm.x86.rdtsc': '@vll_rdtsc',
 }
 
 DECLS = '''
@@ -35,12 +36,14 @@ declare void @vra_store(i8*, i64, i32, i32)
 declare i64 @vra_rmw(i8*, i32, i64, i32, i32)
 declare i64 @vra_cas(i8*, i64, i64, i32, i32, i32)
 declare void @vra_fence(i32)
+declare void @vll_forbidden()
 '''
 
 class Pass:
-    def __init__(s, cuts):
+    def __init__(s, cuts, forbid=()):
         s.n = 0
         s.cuts = [re.compile(c) for c in cuts]
+        s.forbid = [re.compile(c) for c in forbid]; s.forbid_names = []
         s.cut_names = []
         s.atomics = []     # (function, kind, order)
         s.fences = 0
@@ -140,6 +143,12 @@ class Pass:
             if ln.startswith('define'):
                 m = re.search(r'(@"(?:[^"\\]|\\.)*"|@[-a-zA-Z$._0-9]+)\(', ln)
                 fn = m.group(1)
+                if any(c.search(fn.strip('@"')) for c in s.forbid):
+                    # forbidden on the analysed path: reaching it is a violation (used for "no allocation / no formatting")
+                    s.forbid_names.append(fn.strip('@"'))
+                    out.append(re.sub(r'\s+personality .*\{$', ' {', ln)); out.append('  call void @vll_forbidden()'); out.append('  unreachable'); out.append('}')
+                    while lines[i] != '}': i += 1
+                    i += 1; fn = None; continue
                 if s.is_cut(fn):
                     s.cut_names.append(fn.strip('@"'))
                     out.append(s.declare_from_define(ln))
@@ -163,8 +172,9 @@ if __name__ == '__main__':
     import json
     src, dst = sys.argv[1], sys.argv[2]
     cuts = [a[2:] for a in sys.argv[3:] if a.startswith('-c')]
+    forbid = [a[2:] for a in sys.argv[3:] if a.startswith('-f')]
     info = [a[2:] for a in sys.argv[3:] if a.startswith('-j')]
-    p = Pass(cuts)
+    p = Pass(cuts, forbid)
     open(dst, 'w').write(p.run(open(src).read()))
     if info:
-        json.dump({'cut': p.cut_names, 'atomics': p.atomics, 'fences': p.fences}, open(info[0], 'w'))
+        json.dump({'forbidden': p.forbid_names, 'cut': p.cut_names, 'atomics': p.atomics, 'fences': p.fences}, open(info[0], 'w'))
